@@ -9,13 +9,16 @@ TRUSTED_COMMON = [
 PROPS = {
     'C18': dict(
         vx_units=['seal', 'ptsize'], kx=[],
-        design_ref='DESIGN.md section 5, C18',
+        design_ref='DESIGN.md A.4 / A.6 (D10-D12)',
         not_covered=[
-            'O_APPEND writes (the gate is applied to pwrite on a descriptor whose flags come from the request) and O_TRUNC in open/create: kernel semantics behind libc calls, outside contract reach (DESIGN.md section 7, O1)',
-            'size-changing setattr path (PassthroughFs::setattr is a chain of syscalls)',
-            'the call sites of seal_size_check in write/fallocate (functions made of syscalls; not extracted)',
+            'kernel semantics are assumed, not proved: pwrite on an O_APPEND descriptor appends; open(O_TRUNC) truncates; fcntl(F_SETFL) sets the status flags; fstat reports the size (the contracts of module `sys` in vx/units/ptsize.py)',
+            'HandleData invariant "the descriptor is in append mode only if the recorded flags word has O_APPEND" is assumed at get_flags() (established by do_open/create, which are not extracted)',
+            'do_open / create: only their re-open step (open_inode) is under contract; create_file_excl (O_CREAT|O_EXCL, new files only) is not',
+            'the size of the file between the fstat and the write (concurrent host or client activity); DAX mappings (setupmapping)',
+            'that a File borrowing a handle descriptor is never dropped (D12): ownership of descriptors is outside the contracts; findings/repro_pt_seal.rs::d12 is the regression test',
         ],
-        trusted=['T3 std::io::Error modelled as an opaque value with os_code(); libc FALLOC_FL_* constants as on x86_64-linux-gnu'],
+        trusted=['T3 std::io::Error modelled as an opaque value with os_code(); libc FALLOC_FL_* / O_* constants as on x86_64-linux-gnu',
+                 'models of File / BorrowedFd / HandleData / InodeData / CString / ManuallyDrop (identity) in vx/units/ptsize.py'],
     ),
     'C06': dict(
         vx_units=['vfs', 'pt'], kx=[],
